@@ -80,6 +80,9 @@ def is_op_success(op):
     return op in (80, 98) or 126 <= op <= 129 or 131 <= op <= 134 or 137 <= op <= 138 or 141 <= op <= 142 or 149 <= op <= 153 or 187 <= op <= 254
 
 
+TRACE = None      # set to a set() to collect the non-push opcodes that were actually executed (statistics of the C12 check)
+
+
 class ScriptFail(Exception):
     def __init__(self, code):
         super().__init__(code)
@@ -623,6 +626,8 @@ def eval_script(stack, script, flags, checker, sigversion, execdata=None):
                     raise ScriptFail("MINIMALDATA")
                 stack.append(data)
         elif executing or OP_IF <= op <= OP_ENDIF:
+            if TRACE is not None and executing:
+                TRACE.add(op)
             if op == OP_1NEGATE or OP_1 <= op <= OP_16:
                 stack.append(num_encode(op - (OP_1 - 1)))
             elif op == OP_NOP:
